@@ -2,6 +2,7 @@
 package main
 
 import (
+	"runtime/pprof"
 	"encoding/json"
 	"flag"
 	"fmt"
@@ -47,6 +48,11 @@ func main() {
 	if len(os.Args) < 2 {
 		fmt.Fprintln(os.Stderr, "usage: schedmc explore|replay|list ...")
 		os.Exit(2)
+	}
+	if pf := os.Getenv("VERIF_PROF"); pf != "" {
+		f, _ := os.Create(pf)
+		pprof.StartCPUProfile(f)
+		defer pprof.StopCPUProfile()
 	}
 	switch os.Args[1] {
 	case "explore":
@@ -133,6 +139,7 @@ func explore(args []string) {
 			ex.Explore()
 			st := ex.St
 			scExec += st.Executions
+			res.Outcomes["~runs incl. shared levels: "+sc.Name] += st.Runs
 			scPoints += st.Points
 			res.Evaluations += st.Executions
 			res.Transitions += st.Steps
